@@ -374,11 +374,13 @@ def expand_arg(a):
     if t in ("B", "O"):
         return ("error",) if a != "B0" else ("empty",)
     items = []
+    allkeys = []
     body = a[1:]
     if t == "K" and not body:
         return ("error",)
     for it in (body.split(";") if body else []):
         k, _, val = it.partition("=")
+        allkeys.append(dec(k))
         vals = val[1:-1].split("|") if val.startswith("[") else [val]
         if val == "[]":
             vals = []
@@ -397,7 +399,7 @@ def expand_arg(a):
                 return ("error",)
     if not body:
         return ("empty",)
-    return ("pairs", items, t)
+    return ("pairs", items, t, allkeys)
 
 
 def c12_oracle(full, io, b):
@@ -455,17 +457,28 @@ def c12_oracle(full, io, b):
             elif name == "extend_query":
                 exp = old + items
             else:
-                keys = [k for k, _ in items]
+                keys = e[3]          # every key of the argument, including keys whose value is an empty list
                 kept = [p for p in old if p[0] not in keys]
                 if [p for p in new if p[0] not in keys] != kept:
                     out.append(fail(v, h, "query", f"update_query({f[4]}): pairs with other keys changed: {old!r} -> {new!r}", "query-algebra"))
                     continue
-                bad = False
+                bad = stale = False
                 for k in set(keys):
-                    if [x for kk, x in new if kk == k] != [x for kk, x in items if kk == k]:
-                        bad = True
+                    got_v = [x for kk, x in new if kk == k]
+                    new_v = [x for kk, x in items if kk == k]
+                    if got_v != new_v:
+                        # the listed multidict defect: the new values, followed by old values of k that should have been dropped
+                        old_v = [x for kk, x in old if kk == k]
+                        rest = got_v[len(new_v):]
+                        it_ = iter(old_v[len(new_v):])
+                        if got_v[: len(new_v)] == new_v and rest and all(any(y == x for y in it_) for x in rest) and len(set(keys)) > 1:
+                            stale = True
+                        else:
+                            bad = True
                 if bad:
                     out.append(fail(v, h, "query", f"update_query({f[4]}): values of updated keys wrong: {old!r} -> {new!r}", "query-algebra"))
+                elif stale:
+                    out.append(fail(v, h, "query", f"update_query({f[4]}): a stale duplicate of an updated key survives: {old!r} -> {new!r}", "update-stale-duplicate"))
                 continue
         if new != exp:
             out.append(fail(v, h, "query", f"{name}({f[4]}): {old!r} -> {new!r}, expected {exp!r}", "query-algebra"))
